@@ -232,3 +232,13 @@ func Explore(bound int, deadline time.Time, mk func() *Sched, body func(s *Sched
 	rec(nil, 0)
 	return st
 }
+
+// ChanSend replaces `ch <- v` in files rewritten with R-chan: under the controlled scheduler the send is a
+// scheduling point that is enabled while the channel's buffer has room (harnesses give such channels a buffer; an
+// unbuffered channel without a scheduled receiver shows up as a deadlock); otherwise it is the plain send.
+func ChanSend[T any](ch chan<- T, v T, site string) {
+	if s := CurSched(); s != nil {
+		s.Yield(func() bool { return len(ch) < cap(ch) }, "chan send "+site)
+	}
+	ch <- v
+}
